@@ -1,15 +1,16 @@
 """Finite-automaton extraction for emit_core::path::is_valid_path (C15.R3).
 
 An abstract interpreter over the function's built MIR: integers/bools are concrete, characters are one of
-four classes (':' | XID_Start | XID_Continue-only | other), the input is a list of classes.  The two
+five classes (':' | XID_Start | '_' | other XID_Continue-only | other), the input is a list of classes.  The two
 unicode predicates are modelled as class membership.  The resulting automaton (states = values of the
 loop-carried locals) is compared by product exploration with two reference automata:
-  strict  = ident ("::" ident)*,  ident = XID_Start XID_Continue*      (must be accepted)
+  strict  = ident ("::" ident)*,  ident = XID_Start XID_Continue* | '_' XID_Continue+   (Rust identifiers, i.e. what
+            module_path!() can produce; must be accepted)
   loose   = seg ("::" seg)*,      seg   = (XID_Start|XID_Continue)+     (nothing outside may be accepted)
 No path constraints, no solver: the transfer functions are evaluated on every (state, class) pair."""
 from . import mir
 
-CLASSES = ("colon", "S", "C", "O")
+CLASSES = ("colon", "S", "U", "C", "O")
 
 
 class NotModelled(Exception):
@@ -73,6 +74,8 @@ def _interp(b, word, max_steps=20000):
     def cls_eq_char(c, ch):
         if ch == ":":
             return c == "colon"
+        if ch == "_":
+            return c == "U"
         raise NotModelled("comparison with char %r" % ch)
 
     while True:
@@ -161,6 +164,9 @@ def _interp(b, word, max_steps=20000):
                     if iv == 58:
                         if v == "colon":
                             nxt = tgt
+                    elif iv == 95:
+                        if v == "U":
+                            nxt = tgt
                     else:
                         raise NotModelled("char switch on %d" % iv)
                 elif isinstance(v, bool):
@@ -207,7 +213,7 @@ def _interp(b, word, max_steps=20000):
             elif nm == "is_xid_start":
                 val = args[0] == "S"
             elif nm == "is_xid_continue":
-                val = args[0] in ("S", "C")
+                val = args[0] in ("S", "C", "U")
             else:
                 raise NotModelled("call %s" % (c.get("full") or nm))
             d = t["dest"]
@@ -224,13 +230,15 @@ def _interp(b, word, max_steps=20000):
 # reference automata over CLASSES ------------------------------------------------------------------------------
 
 def strict_step(q, c):
-    # 0: expect ident start; 1: in ident; 2: after one ':'; D: dead
+    # 0: expect ident start; "u": seen only a leading '_'; 1: in ident; 2: after one ':'; D: dead
     if q == "D":
         return "D"
     if q == 0:
-        return 1 if c == "S" else "D"
+        return 1 if c == "S" else ("u" if c == "U" else "D")
+    if q == "u":
+        return 1 if c in ("S", "C", "U") else "D"
     if q == 1:
-        if c in ("S", "C"):
+        if c in ("S", "C", "U"):
             return 1
         if c == "colon":
             return 2
@@ -247,9 +255,9 @@ def loose_step(q, c):
     if q == "D":
         return "D"
     if q == 0:
-        return 1 if c in ("S", "C") else "D"
+        return 1 if c in ("S", "C", "U") else "D"
     if q == 1:
-        if c in ("S", "C"):
+        if c in ("S", "C", "U"):
             return 1
         if c == "colon":
             return 2
@@ -280,10 +288,10 @@ def check(P):
             explored += 1
             if strict_accept(qs) and not res:
                 return False, ("is_valid_path rejects the class string %s, which is of the form ident(::ident)* "
-                               "(colon=':', S=XID_Start, C=XID_Continue only, O=other)" % (list(w),)), [], b.span
+                               "(colon=':', S=XID_Start, U='_', C=other XID_Continue-only, O=other)" % (list(w),)), [], b.span
             if res and not loose_accept(ql):
                 return False, ("is_valid_path accepts the class string %s, which is not segments of identifier characters joined "
-                               "by exactly '::' (colon=':', S=XID_Start, C=XID_Continue only, O=other)" % (list(w),)), [], b.span
+                               "by exactly '::' (colon=':', S=XID_Start, U='_', C=other XID_Continue-only, O=other)" % (list(w),)), [], b.span
             if len(w) > 24:
                 return False, "state space did not close (word length > 24)", [], b.span
             if st is None and not res and len(w) > 0:
